@@ -61,6 +61,21 @@ class Sub:
         return head + sig + body + "}\n"
 
 
+class Raw:
+    """a root declaration other than a subroutine (backend, director, table, acl, penaltybox, ratecounter):
+    takes part in the permutation of the declarations, not in the call graph"""
+    name, rtype, annots, items, pre = "", None, (), (), ()
+
+    def __init__(self, text):
+        self._text = text
+
+    def callees(self):
+        return []
+
+    def text(self, macro=True):
+        return self._text
+
+
 class LintGen:
     def __init__(self, rng):
         self.r = rng
@@ -206,20 +221,83 @@ class LintGen:
                 items = items + [("// falco-ignore-end", [])]
             subs.append(Sub(nm, rtype, annots, items, pre))
             self._c("sub:" + kind)
-        others = []
-        for _ in range(r.choice([0, 0, 1, 2, 3])):
-            k = r.random()
-            i = r.randint(0, 2)
-            if k < 0.35:
-                others.append('acl acl%d { "10.0.0.%d"; }\n' % (i, i))
-                self._c("decl:acl")
-            elif k < 0.7:
-                others.append('table tbl%d { "k": "v%d", }\n' % (i, i))
-                self._c("decl:table")
+        return self.with_declarations(subs), []
+
+    def with_declarations(self, subs):
+        """add root declarations of every other kind, cross references between them and uses from the
+        subroutine bodies (some stay unused, some are declared twice); returns one list in random order"""
+        r = self.r
+        decls = []
+        nb = r.choice([0, 1, 2, 2, 3])
+        backends = ["F_b%d" % i for i in range(nb)]
+        for b in backends:
+            decls.append(Raw('backend %s { .host = "example.com"; .port = "80"; }\n' % b))
+            self._c("decl:backend")
+        directors = []
+        if backends and r.random() < 0.6:
+            for di in range(r.choice([1, 1, 2])):
+                members = r.sample(backends, r.randint(1, len(backends)))
+                kind = r.choice(["random", "hash", "client", "fallback"])
+                body = "".join("  { .backend = %s; %s}\n" % (m, ".weight = 1; " if kind != "fallback" else "") for m in members)
+                decls.append(Raw("director d%d %s {\n%s%s}\n" % (di, kind, "  .quorum = 50%;\n" if kind != "fallback" else "", body)))
+                directors.append("d%d" % di)
+                self._c("decl:director")
+        tables = []
+        for ti in range(r.choice([0, 1, 1, 2])):
+            if backends and r.random() < 0.3:
+                decls.append(Raw('table t%d BACKEND { "k": %s, }\n' % (ti, r.choice(backends))))
+                self._c("decl:table-backend")
             else:
-                others.append('backend be%d { .host = "example.com"; .port = "80"; }\n' % i)
-                self._c("decl:backend")
-        return subs, others
+                decls.append(Raw('table t%d { "k": "v%d", }\n' % (ti, ti)))
+                self._c("decl:table")
+            tables.append("t%d" % ti)
+        acls = []
+        for ai in range(r.choice([0, 1, 1, 2])):
+            decls.append(Raw('acl a%d { "10.0.0.%d"; }\n' % (ai, ai)))
+            acls.append("a%d" % ai)
+            self._c("decl:acl")
+        pbs, rcs = [], []
+        if r.random() < 0.4:
+            decls.append(Raw("penaltybox pb0 {}\n"))
+            pbs.append("pb0")
+            self._c("decl:penaltybox")
+        if r.random() < 0.4:
+            decls.append(Raw("ratecounter rc0 {}\n"))
+            rcs.append("rc0")
+            self._c("decl:ratecounter")
+        # duplicates (identical text: the first one is registered, the second reported)
+        for d in list(decls):
+            if r.random() < 0.08:
+                decls.append(Raw(d.text()))
+                self._c("decl:duplicate")
+        # uses from the subroutine bodies
+        uses = []
+        for b in backends + directors:
+            if r.random() < 0.45:
+                uses.append("set req.backend = %s;" % b)
+        for t in tables:
+            if r.random() < 0.6:
+                uses.append('set req.http.TL = table.lookup(%s, "k");' % t if "BACKEND" not in "".join(d.text() for d in decls if ("table %s " % t) in d.text())
+                            else 'set req.backend = table.lookup_backend(%s, "k", %s);' % (t, backends[0]))
+        for a in acls:
+            if r.random() < 0.6:
+                uses.append("if (client.ip ~ %s) { esi; }" % a)
+        if pbs and rcs and r.random() < 0.7:
+            uses.append('if (ratelimit.check_rate("c", rc0, 1, 10, 100, pb0, 1m)) { esi; }')
+        elif pbs and r.random() < 0.5:
+            uses.append('if (ratelimit.penaltybox_has(pb0, "e")) { esi; }')
+        elif rcs and r.random() < 0.5:
+            uses.append('set req.http.RC = ratelimit.ratecounter_increment(rc0, "e", 1);')
+        real = [s for s in subs if not isinstance(s, Raw)]
+        for u in uses:
+            if real:
+                sb = r.choice(real)
+                sb.items = list(sb.items)
+                sb.items.insert(r.randint(0, len(sb.items)), (u, []))
+                self._c("use:" + u.split()[0] + " " + (u.split()[1] if u.startswith("set") else "cond"))
+        out = list(subs) + decls
+        r.shuffle(out)
+        return out
 
     # ---------------------------------------------------------------- call-graph shapes
     LEAF_SENSITIVE = ["restart;", "esi;", "error 601;", "set beresp.ttl = 10s;", 'set resp.http.L = "1";',
@@ -291,13 +369,40 @@ class LintGen:
             pre = [r.choice(IGNORES[:4])] if r.random() < (0.5 if kinds[nm] == "rejected" else 0.08) else []
             subs.append(Sub(names[nm], rtype, annots, items, pre))
         r.shuffle(subs)
-        return subs, []
+        return (self.with_declarations(subs) if r.random() < 0.5 else subs), []
+
+    # ---------------------------------------------------------------- scale
+    def scale_program(self):
+        """65-300 subroutines: a long call chain with extra forward calls, a few recursions anywhere
+        (also among the last names), entered from vcl_recv; returns (subs, number of module files to split into)"""
+        r = self.r
+        n = r.choice([65, 70, 100, 130, 200, 300])
+        names = ["s%03d" % i for i in range(n)]
+        subs = [Sub("vcl_recv", None, [], [("call s000;", ["s000"])])]
+        cyc = set(r.sample(range(n), r.choice([0, 1, 2, 3]))) | ({n - 1, n - 2} if r.random() < 0.6 else set())
+        for i, nm in enumerate(names):
+            items = []
+            if i + 1 < n and r.random() < 0.9:
+                items.append(("call %s;" % names[i + 1], [names[i + 1]]))
+            for _ in range(r.choice([0, 0, 1, 2])):
+                j = r.randrange(i, n) if i + 1 < n else i
+                if j > i:
+                    items.append(('if (req.http.A) { call %s; }' % names[j], [names[j]]))
+            if i in cyc:
+                j = r.randrange(max(0, i - 3), i + 1)
+                items.append(("call %s;" % names[j], [names[j]]))          # back edge / self call
+            if not items:
+                items.append(('set req.http.L = "1";', []))
+            subs.append(Sub(nm, None, [], items))
+        self._c("scale:n%d" % n)
+        r.shuffle(subs)
+        return subs, r.choice([0, 0, 10, 40])
 
     # ---------------------------------------------------------------- statement-level include graphs
     def stmt_graph(self, k=None):
         """module files sm1..smk used at statement level; their bodies nest includes inside blocks
         (if / else / bare block, depth <= 3); target k+1 is a missing file.
-        returns (main items, {i: items}, broken); items: ("s", tag) | ("i", target) | ("b", [items])"""
+        returns (main items, {i: items}, broken, ids that are managed snippets); items: ("s", tag) | ("i", target) | ("b", [items])"""
         r = self.r
         k = k or r.choice([1, 1, 2, 2, 3])
         tag = [0]
@@ -319,7 +424,8 @@ class LintGen:
         if not any(True for _ in _walk_inc(main)):
             main.append(("i", 1))
         broken = tuple(i for i in range(1, k + 1) if r.random() < 0.05)
-        return main, mods, broken
+        # some modules are Fastly managed snippets (include "snippet::g<i>") instead of files; so may be the missing one
+        return main, mods, broken, frozenset(i for i in range(1, k + 2) if r.random() < 0.35)
 
     def stmt_modules(self):
         """statement-level module files sm1..sm2 (sm3 is missing), possibly including themselves / each other"""
@@ -337,6 +443,7 @@ class LintGen:
 
 
 def render(subs, others, order=None, includes=()):
+    """subs: Sub and Raw declarations (permuted by order); others: fixed text in front"""
     order = list(range(len(subs))) if order is None else order
     return "".join(others) + "".join(subs[i].text() for i in order) + "".join('include "%s";\n' % m for m in includes)
 
@@ -353,6 +460,8 @@ def model_decls(subs, order=None):
     rows = []
     for i in order:
         s = subs[i]
+        if isinstance(s, Raw):
+            continue
         rows.append("(%d %d %d%s)" % (nid(s.name), 1 if s.name in FASTLY else 2 if s.name in REJECTED else 0,
                                       explicit_scope(s.name, s.annots),
                                       "".join(" %d" % nid(c) for c in s.callees())))
@@ -367,47 +476,58 @@ def _walk_inc(items):
             yield from _walk_inc(it[1])
 
 
-def _stmt_text(items, rng_choice, ind="  "):
+def _stmt_text(items, snip, ind="  "):
+    snip = snip or ()
     out = ""
     for it in items:
         if it[0] == "s":
             out += ind + 'set req.http.S%d = "1";\n' % it[1]
         elif it[0] == "i":
-            out += ind + 'include "sm%d";\n' % it[1]
+            out += ind + ('include "snippet::g%d";\n' if it[1] in snip else 'include "sm%d";\n') % it[1]
         else:
             form = it[1] and (len(it[1]) + sum(1 for _ in _walk_inc(it[1]))) % 3
             if form == 0:
-                out += ind + "if (req.http.A) {\n" + _stmt_text(it[1], rng_choice, ind + "  ") + ind + "}\n"
+                out += ind + "if (req.http.A) {\n" + _stmt_text(it[1], snip, ind + "  ") + ind + "}\n"
             elif form == 1:
-                out += ind + "if (req.http.A) { esi; } else {\n" + _stmt_text(it[1], rng_choice, ind + "  ") + ind + "}\n"
+                out += ind + "if (req.http.A) { esi; } else {\n" + _stmt_text(it[1], snip, ind + "  ") + ind + "}\n"
             else:
-                out += ind + "{\n" + _stmt_text(it[1], rng_choice, ind + "  ") + ind + "}\n"
+                out += ind + "{\n" + _stmt_text(it[1], snip, ind + "  ") + ind + "}\n"
     return out
 
 
-def _stmt_model(items):
+def _stmt_model(items, top_inert=False):
+    """top_inert: the include statements at the top level of a managed snippet are NOT expanded
+    (resolveSnippetInclusion: "snippet could not have nested include statement"); those nested in blocks are"""
     out = []
     for it in items:
         if it[0] == "s":
             out.append("(s %d)" % it[1])
         elif it[0] == "i":
-            out.append("(i %d)" % it[1])
+            out.append("(s 0)" if top_inert else "(i %d)" % it[1])
         else:
             out.append("(b %s)" % " ".join(_stmt_model(it[1])))
     return out
 
 
-def stmt_graph_files(main, mods, broken=()):
-    files = {"main.vcl": "sub vcl_recv {\n#FASTLY recv\n" + _stmt_text(main, None) + "}\n"}
+def stmt_graph_files(main, mods, broken=(), snip=()):
+    import json as _json
+    files = {"main.vcl": "sub vcl_recv {\n#FASTLY recv\n" + _stmt_text(main, snip) + "}\n"}
+    inc = {}
     for i, body in mods.items():
-        files["sm%d.vcl" % i] = "set req.http.S = ;\n" if i in broken else _stmt_text(body, None, "")
+        text = "set req.http.S = ;\n" if i in broken else _stmt_text(body, snip, "")
+        if i in snip:
+            inc["g%d" % i] = text
+        else:
+            files["sm%d.vcl" % i] = text
+    if snip:
+        files["snippets.json"] = _json.dumps({"include": inc})
     return files
 
 
-def stmt_graph_model(main, mods, broken=()):
+def stmt_graph_model(main, mods, broken=(), snip=()):
     tbl = []
     for i, body in mods.items():
-        tbl.append("(%d B)" % i if i in broken else "(%d L %s)" % (i, " ".join(_stmt_model(body))))
+        tbl.append("(%d B)" % i if i in broken else "(%d L %s)" % (i, " ".join(_stmt_model(body, i in snip))))
     return "inc (%s) (%s)" % (" ".join(tbl), " ".join(_stmt_model(main)))
 
 
